@@ -16,6 +16,7 @@ import (
 	"path/filepath"
 	"sort"
 	"strings"
+	"syscall"
 	"testing"
 	"time"
 
@@ -152,6 +153,31 @@ func scenarioStart(c *hlib.RunCtx) *hlib.Violation {
 		return &itelemetryUploadConfig{}, "v0.1.0", nil
 	}
 	defer func() { configstore.VerifDownload = nil }()
+
+	// What can go wrong in the parent after it took the token: the debug
+	// directory exists but the log file cannot be opened, or the fork fails.
+	debugState := t.Biased(3, 3, 4) // 0 no debug directory, 1 debug directory, 2 debug directory whose sidecar.log is a directory
+	if debugState > 0 && mode != "off" {
+		os.MkdirAll(filepath.Join(tele, "debug"), 0777)
+		if debugState == 2 {
+			os.MkdirAll(filepath.Join(tele, "debug", "sidecar.log"), 0777)
+		}
+		s.Probe(fmt.Sprintf("debug-dir-%d", debugState))
+	}
+	failStart := -1
+	if t.Bool(1, 5) {
+		failStart = t.Draw(3) // the n-th start of a telemetry child fails
+	}
+	nstarts := 0
+	s.StartFailFn = func(parent *simrt.Proc, cmd *exec.Cmd) error {
+		if len(cmd.Args) == 2 && cmd.Args[1] == "** telemetry **" {
+			nstarts++
+			if nstarts-1 == failStart {
+				return syscall.EAGAIN
+			}
+		}
+		return nil
+	}
 
 	info := map[*simrt.Proc]*starter{}
 	var spawnedTelemetry []*simrt.Proc
